@@ -210,8 +210,12 @@ func EvalString(this any, code string, emptyEnv bool) (object.Object, error) {
 		if ok {
 			maxDepth = evalState.MaxDepth // in case it's lower, carry that lower value.
 		}
-		evalState = NewBlankState()
-		evalState.MaxDepth = maxDepth
+		blank := NewBlankState()
+		blank.MaxDepth = maxDepth
+		if ok { // the blank state runs inside the caller's evaluation: same deadline/cancellation, depth keeps counting.
+			blank.Context, blank.Cancel, blank.depth = evalState.Context, evalState.Cancel, evalState.depth
+		}
+		evalState = blank
 	} else {
 		if !ok {
 			return object.NULL, fmt.Errorf("invalid this: %T", this)
